@@ -260,7 +260,41 @@ fn build(setup: Setup, terms: &mut Vec<Term>, devs: &mut Vec<DevRef>) {
     }
 }
 
+/// `dv axlegt <n> <k>`: `Axle::<n>::get_terminal(k)` — must panic (index out of bounds) for `k >= n`. The returned
+/// reference is never dereferenced.
+fn axle_get_terminal(n: usize, k: usize) {
+    fn go<const N: usize>(k: usize) {
+        let d: &'static mut Axle<'static, N, E> = leak(Axle::new());
+        let t = d.get_terminal(k);
+        std::hint::black_box(t as *const _);
+    }
+    match n {
+        0 => go::<0>(k),
+        1 => go::<1>(k),
+        2 => go::<2>(k),
+        3 => go::<3>(k),
+        4 => go::<4>(k),
+        5 => go::<5>(k),
+        6 => go::<6>(k),
+        7 => go::<7>(k),
+        _ => go::<8>(k),
+    }
+}
+
 pub fn run(toks: &[&str], out: &mut Vec<String>) -> R<()> {
+    if toks.get(1).copied() == Some("axlegt") {
+        if toks.len() != 4 {
+            return Err(Bad);
+        }
+        let n = p_usize(toks[2])?;
+        let k = p_usize(toks[3])?;
+        if n > 8 || k > 1000 {
+            return Err(NoImpl);
+        }
+        axle_get_terminal(n, k);
+        out.push("ok".to_string());
+        return Ok(());
+    }
     let sep = toks.iter().position(|t| *t == "--").ok_or(Bad)?;
     let setups = toks[1..sep].iter().map(|t| p_setup(t)).collect::<R<Vec<Setup>>>()?;
     let nterm: usize = setups.iter().map(Setup::terminals).sum();
